@@ -143,6 +143,8 @@ def rules_for(pid):
             ("H-complete", lambda c: RH.h_complete(c.P, c.E, c.H, scope_c09), 2),
             ("S-gate", lambda c: RO.s_gate(c.P, c.E), 4),
             ("Q", lambda c: RQ.q_rules(c.P, c.E), 17),
+            ("K-fresh-state", lambda c: RK.k_fresh_state(c.P, c.E, lambda root: root.startswith("operators::")
+                                                        and root.split("::")[1] in SCHED_OPS), 2),
         ],
         "C10": [
             ("J", lambda c: RJ.j_rules(c.P, c.E), 14),
